@@ -62,7 +62,7 @@ def pred(rng, n):
     return {'pn': k}
 
 
-def unary(rng, n, family):
+def unary(rng, n, family, full=None):
     ops = ['map', 'map', 'filter', 'filter', 'slice', 'slice', 'slice', 'batch', 'unbatch',
            'items', 'tile', 'sort', 'sort', 'split', 'shard', 'cache', 'catch', 'copy',
            'prefetch', 'prefetch', 'shuffle', 'group']
@@ -101,7 +101,7 @@ def unary(rng, n, family):
         return {'op': 'prefetch', 'w': w, 'bs': rng.randint(max(1, w - 1), 3),
                 'cfe': rng.choice(['none', 'none', 'Filter', 'FilterOrValue'])}
     if op == 'shuffle':
-        perm = list(range(n))
+        perm = list(range(n if full is None else full))
         rng.shuffle(perm)
         return {'op': 'shuffle', 'perm': perm}
     if op == 'group':
@@ -142,8 +142,9 @@ def program(rng, depth, maxlen=3, family='core', payload='i'):
         return {'op': rng.choice(['concat', 'concat', 'intersperse', 'zip', 'keyzip']),
                 'in': a, 'in2': b}
     inner = program(rng, depth - 1, maxlen, family, payload)
-    n = min(_len_guess(inner), 8)
-    d = unary(rng, n, family)
+    full = _len_guess(inner)
+    n = min(full, 8)
+    d = unary(rng, n, family, full if full <= 30 else None)
     d['in'] = inner
     return d
 
